@@ -329,8 +329,11 @@ func (c *CastExpression) SQL() string {
 	if c == nil {
 		return ""
 	}
-	// A chain of nested casts (a::int::text ... parses into casts of casts) is written into one
-	// builder; formatting the operand's text into a new string at every level copies it once per cast.
+	// A chain of nested casts (a::int::text ... parses into casts of casts) is written from the
+	// innermost operand outwards into one builder: the innermost cast as CAST(x AS t), every further
+	// one as the postfix ::type it was read from. Nesting CAST(CAST(... AS t) AS u) once per cast
+	// would copy the text once per level and, for a long chain, exceed the parser's nesting limit
+	// although the chain itself was parsed without nesting.
 	chain := []*CastExpression{c} // outermost first
 	for {
 		inner, ok := chain[len(chain)-1].Expr.(*CastExpression)
@@ -341,16 +344,38 @@ func (c *CastExpression) SQL() string {
 	}
 	sb := getBuilder()
 	defer putBuilder(sb)
-	for range chain {
+	last := len(chain) - 1
+	if isArrayTypeName(chain[last].Type) {
+		// CAST(x AS t[]) is not accepted by the parser; x::t[] is
+		sb.WriteString(operandSQL(chain[last].Expr, precPrimary))
+		sb.WriteString("::")
+		sb.WriteString(chain[last].Type)
+	} else {
 		sb.WriteString("CAST(")
-	}
-	sb.WriteString(exprSQL(chain[len(chain)-1].Expr))
-	for i := len(chain) - 1; i >= 0; i-- {
+		sb.WriteString(exprSQL(chain[last].Expr))
 		sb.WriteString(" AS ")
-		sb.WriteString(chain[i].Type)
+		sb.WriteString(chain[last].Type)
 		sb.WriteString(")")
 	}
+	for i := last - 1; i >= 0; i-- {
+		sb.WriteString("::")
+		sb.WriteString(chain[i].Type)
+	}
 	return sb.String()
+}
+
+// isArrayTypeName reports whether a cast type is an array type (int[], varchar(10)[]).
+func isArrayTypeName(t string) bool {
+	return strings.HasSuffix(t, "[]")
+}
+
+// castIsPostfix reports whether the cast is written in the postfix form expr::type.
+func castIsPostfix(c *CastExpression) bool {
+	if isArrayTypeName(c.Type) {
+		return true
+	}
+	inner, ok := c.Expr.(*CastExpression)
+	return ok && inner != nil
 }
 
 func (c *CaseExpression) SQL() string {
@@ -1604,6 +1629,11 @@ func exprPrec(e Expression) int {
 		return precUnary
 	case *BetweenExpression, *InExpression, *AnyExpression, *AllExpression:
 		return precComparison
+	case *CastExpression:
+		if v != nil && castIsPostfix(v) {
+			return precPostfix
+		}
+		return precPrimary
 	default:
 		return precPrimary
 	}
